@@ -7,7 +7,9 @@ use crate::world::{self, Scratch, Val};
 use serde_json::{json, Value};
 use std::collections::BTreeMap;
 
-const SCENARIOS: [&str; 16] = [
+const SCENARIOS: [&str; 18] = [
+    // the handle has already performed `size` writes (its in-memory state, e.g. the sharded load estimates, differs)
+    "warm_put", "warm_set",
     "get_hit_all_levels", "touch_hit_all_levels", "ensure_hit_all_levels",
     "get_hit", "get_miss", "get_hit_last_level", "touch_hit", "touch_miss", "set_new", "set_existing", "put_insert", "put_hit",
     "ensure_hit", "ensure_miss", "ensure_promote", "set_temp_file",
@@ -88,6 +90,10 @@ fn populate_dir(root: &std::path::Path, sharded: bool, n: usize, old: i128) {
     }
 }
 
+fn c_val() -> Val {
+    Val::one(2)
+}
+
 fn count_proc_fds() -> i64 {
     shim::passthrough(|| std::fs::read_dir("/proc/self/fd").map(|d| d.count() as i64).unwrap_or(-1))
 }
@@ -102,9 +108,10 @@ fn observe_with(case: &Case, size: usize, ctl: Option<std::sync::Arc<dyn shim::C
     let dirs = Dirs::under(&sc.root, case.depth - 1);
     let old = run::base_time_ns() as i128 - 86_400_000_000_000;
     let front = if case.sharded { Front::Sharded(3) } else { Front::Plain };
-    populate_dir(&dirs.write, case.sharded, size, old);
+    let warm = case.scenario.starts_with("warm_");
+    populate_dir(&dirs.write, case.sharded, if warm { 0 } else { size }, old);
     for r in &dirs.reads {
-        populate_dir(r, false, size, old);
+        populate_dir(r, false, if warm { 0 } else { size }, old);
     }
     let k = key();
     let a = Val::new(0, world::Size::Five);
@@ -159,7 +166,18 @@ fn observe_with(case: &Case, size: usize, ctl: Option<std::sync::Arc<dyn shim::C
     };
     let cache = ops::build(&cfg, &dirs, None);
     let c = Val::one(2);
+    if warm {
+        let (_r, _t) = run::as_participant(0, 1, || {
+            run::trigger_never();
+            for i in 0..size as u64 {
+                let wk = K::new(&format!("w{:05}", i), i.wrapping_mul(0x9E37_79B9_7F4A_7C15), i.wrapping_mul(0xC2B2_AE3D_27D4_EB4F).wrapping_add(1));
+                let _ = ops::exec(&cache, &dirs, &Op::Put(wk, c_val()), &Default::default());
+            }
+        });
+    }
     let op = match case.scenario.as_str() {
+        "warm_put" => Op::Put(k, c_val()),
+        "warm_set" => Op::Set(k, c_val()),
         "get_hit" | "get_miss" | "get_hit_last_level" | "get_hit_all_levels" => Op::Get(k),
         "touch_hit" | "touch_miss" | "touch_hit_all_levels" => Op::Touch(k),
         "set_new" | "set_existing" => Op::Set(k, c),
@@ -483,7 +501,8 @@ fn concurrent_check(x: &crate::sched::Execution) -> Vec<(String, String)> {
 
 pub fn run(_tier: Tier, shard: Shard, rep: &mut Report) {
     rep.rule = "operation scenario {get hit/miss/hit in the last level, touch hit/miss, set new/existing, put insert/hit, ensure \
-        hit/miss/promote, set_temp_file, and get/touch/ensure with the key present in every level} x write front-end {plain, sharded(3)} x stack depth 1-3 x checker {off, on} with every \
+        hit/miss/promote, set_temp_file, get/touch/ensure with the key present in every level, and put/set through a handle that has \
+        already performed that many writes} x write front-end {plain, sharded(3)} x stack depth 1-3 x checker {off, on} with every \
         directory pre-populated with 0, 10, 100 and 2000 (thorough: also 20000; stack depth up to 4) entries (maintenance scripted not to fire): per-kind call counts identical \
         across the four sizes, no readdir, <= 2 open attempts per cache directory per lookup, peak simultaneously open \
         files + directory streams <= 2 (3 with a checker) from the intercepted open/close stream, nothing left open afterwards \
